@@ -120,6 +120,7 @@ pub fn run(ctx: &mut Ctx) {
   interpolation_s(ctx);
   domains(ctx);
   state_machine(ctx);
+  spdc_level(ctx);
 }
 
 // ------------------------------------------------------------------ windows: correspondence
@@ -432,16 +433,50 @@ fn gen_period(r: &mut Rng) -> f64 {
   }
 }
 
+/// periods of one op sequence: mostly drawn from a small pool of magnitudes with random signs, so that exact
+/// repeats (±Λ, same sign) and pure sign flips of the stored magnitude occur often
+fn gen_pool(r: &mut Rng) -> Vec<f64> {
+  let mut pool = vec![10e-6, 7.5e-6, 46.1e-6];
+  pool.truncate(r.between(1, 3));
+  pool.push(r.log_range(1e-7, 1e-3));
+  pool
+}
+
+fn gen_period_pooled(r: &mut Rng, pool: &[f64]) -> f64 {
+  if r.below(4) == 0 {
+    gen_period(r)
+  } else {
+    let m = *r.pick(pool);
+    if r.coin() {
+      m
+    } else {
+      -m
+    }
+  }
+}
+
 fn state_machine(ctx: &mut Ctx) {
   for _ in 0..ctx.n / 2 {
-    let nops = ctx.rng.between(1, 8);
+    let nops = ctx.rng.between(1, 12);
+    let pool = gen_pool(&mut ctx.rng);
     let mut pp = PeriodicPoling::Off;
     let mut args: Vec<String> = vec![];
     let mut outs: Vec<String> = vec![];
     for _ in 0..nops {
       let before = pp.clone();
-      let which = ctx.rng.below(5);
-      let period = gen_period(&mut ctx.rng);
+      // the period mutators twice as often as the window mutators
+      let which = *ctx.rng.pick(&[0usize, 1, 1, 2, 2, 2, 3, 4]);
+      let period = gen_period_pooled(&mut ctx.rng, &pool);
+      if let PeriodicPoling::On { period: p0, sign: s0, .. } = &before {
+        if which <= 2 && period != 0. {
+          let m0 = *(*p0 / M);
+          let same_sign = (*s0 == Sign::NEGATIVE) == (period < 0.);
+          ctx.count(&format!(
+            "pp/history/{}",
+            if m0 == period.abs() { if same_sign { "same-period-again" } else { "sign-flip-same-magnitude" } } else { "new-magnitude" }
+          ));
+        }
+      }
       let w = gen_apod(&mut ctx.rng, 1e-3);
       let opname;
       match which {
@@ -515,5 +550,66 @@ fn state_machine(ctx: &mut Ctx) {
       }
     }
     ctx.k("pp_seq", &args.join(" "), &outs.join(" | "));
+  }
+}
+
+/// `SPDC::assign_poling_period` / `with_poling_period` (unsigned period, sign computed from Δk): the stored
+/// magnitude is the requested one, the sign convention holds, the window is kept — over histories that repeat
+/// magnitudes and flip signs
+fn spdc_level(ctx: &mut Ctx) {
+  use spdcalc::SPDC;
+  let mut spdc = SPDC::default();
+  let expected_sign = PeriodicPoling::compute_sign(&spdc.signal, &spdc.pump, &spdc.crystal_setup);
+  let pool = [10e-6, 7.5e-6, 46.1e-6];
+  for i in 0..(if ctx.thorough { 400 } else { 60 }) {
+    let before = spdc.pp.clone();
+    let m = *ctx.rng.pick(&pool);
+    let period = if ctx.rng.coin() { m } else { -m };
+    let opname;
+    match ctx.rng.below(5) {
+      0 => {
+        opname = "pp.assign_period";
+        spdc.pp.assign_period(period * M);
+        if matches!(before, PeriodicPoling::Off) {
+          continue;
+        }
+      }
+      1 => {
+        opname = "pp.set_apodization";
+        let w = gen_apod(&mut ctx.rng, 1e-3);
+        spdc.pp.set_apodization(w.clone());
+        if let (PeriodicPoling::On { period: p0, sign: s0, .. }, PeriodicPoling::On { period: p1, sign: s1, apodization }) = (&before, &spdc.pp) {
+          ctx.s("C19.state", p0 == p1 && s0 == s1 && apodization == &w, "state/apodization-update-keeps-period", &format!("op=spdc.{} step={} {}", opname, i, apod_desc(&w)));
+        }
+        continue;
+      }
+      2 => {
+        opname = "with_poling_period";
+        spdc = spdc.with_poling_period(period * M);
+      }
+      _ => {
+        opname = "assign_poling_period";
+        spdc.assign_poling_period(period * M);
+      }
+    }
+    let desc = format!("op=spdc.{} step={} period={:e} before={}", opname, i, period, state_wire(&before).replace(' ', ","));
+    match &spdc.pp {
+      PeriodicPoling::On { period: p, sign, apodization } => {
+        let mag = *(*p / M);
+        let sp = *(spdc.pp.signed_period() / M);
+        let want_neg = if opname == "pp.assign_period" { period < 0. } else { expected_sign == Sign::NEGATIVE };
+        let ok = mag > 0. && mag == period.abs() && (*sign == Sign::NEGATIVE) == want_neg && (sp < 0.) == want_neg && sp.abs() == mag;
+        ctx.s("C19.state", ok, "state/period-update", &format!("{} after={}", desc, state_wire(&spdc.pp).replace(' ', ",")));
+        let k = spdc.pp.k_eff().value_unsafe;
+        ctx.s("C19.state", (k - std::f64::consts::TAU / sp).abs() <= 4. * f64::EPSILON * k.abs(), "state/k-eff", &format!("{} k_eff={:e}", desc, k));
+        let kept = match &before {
+          PeriodicPoling::Off => apodization == &Apodization::Off,
+          PeriodicPoling::On { apodization: a0, .. } => apodization == a0,
+        };
+        ctx.s("C19.state", kept, "state/period-update-keeps-apodization", &desc);
+      }
+      PeriodicPoling::Off => ctx.s("C19.state", false, "state/period-update", &format!("{} after=off", desc)),
+    }
+    ctx.count(&format!("pp/spdc/{}", opname));
   }
 }
